@@ -9,7 +9,8 @@ open GuppyVerif.EmuConfig
 
 /-- effect of one derivation method on a by-value configuration; `look` resolves the object
     handed to `with_simulator` to its content at that moment -/
-def applyD (look : Nat → Option Sim) (a : RunArgs) : Deriv → Option RunArgs
+def applyD (look : Nat → Option Sim) (lookC : Nat → Option (Option Nat)) (a : RunArgs) :
+    Deriv → Option RunArgs
   | .seed v => some { a with seed := v, simSeed := v }
   | .shots n => some { a with shots := n }
   | .shotOffset n => some { a with shotOffset := n }
@@ -19,9 +20,9 @@ def applyD (look : Nat → Option Sim) (a : RunArgs) : Deriv → Option RunArgs
   | .verbose b => some { a with verbose := b }
   | .timeout t => some { a with timeout := t }
   | .progressBar b => some { a with progressBar := b }
-  | .runtime r => some { a with runtime := r }
-  | .errorModel e => some { a with errorModel := e }
-  | .eventHook h => some { a with eventHook := h }
+  | .runtime r => (lookC r).map fun sd => { a with runtime := r, runtimeSeed := sd }
+  | .errorModel e => (lookC e).map fun sd => { a with errorModel := e, errorModelSeed := sd }
+  | .eventHook h => (lookC h).map fun sd => { a with eventHook := h, eventHookSeed := sd }
   | .simulator sid => (look sid).map fun s => { a with simKind := s.kind, simSeed := s.seed }
   | .statevector => some { a with simKind := .quest, simSeed := none }
   | .coinflip => some { a with simKind := .coinflip, simSeed := none }
@@ -36,13 +37,16 @@ def applyB (a : BuildArgs) : BDeriv → BuildArgs
 
 /-- run arguments of a freshly built instance: `_Options()` defaults, fresh Quest without seed -/
 def defaultArgs (n : Nat) : RunArgs :=
-  { simKind := .quest, simSeed := none, runtime := 0, errorModel := 0, eventHook := 0, nQubits := n,
+  { simKind := .quest, simSeed := none, runtime := 0, runtimeSeed := none, errorModel := 0,
+    errorModelSeed := none, eventHook := 0, eventHookSeed := none, nQubits := n,
     shots := 1, verbose := false, timeout := none, seed := none, shotOffset := 0, shotIncrement := 1,
     nProcesses := 1, progressBar := false }
 
 /-- every instance refers to a live simulator object and to an existing build-log entry -/
 def WF (s : State) : Prop :=
-  ∀ c ∈ s.insts, c.sim < s.heap.length ∧ ∀ o, c.origin = some o → o < s.blog.length
+  s.comps[0]? = some none ∧
+  ∀ c ∈ s.insts, (c.sim < s.heap.length ∧ c.runtime < s.comps.length ∧ c.errorModel < s.comps.length ∧
+    c.eventHook < s.comps.length) ∧ ∀ o, c.origin = some o → o < s.blog.length
 
 /-- follow an instance derivation path starting at instance `i`; before every derivation any
     other operations (`junk`: derivations from / runs of any instance or builder) may happen -/
@@ -68,11 +72,12 @@ def chainB : State → Nat → List (List Op × BDeriv) → Option (State × Nat
       | some s₂ => chainB s₂ s₁.builders.length rest
 
 /-- fold of an instance derivation path over by-value run arguments -/
-def foldD (look : Nat → Option Sim) : RunArgs → List Deriv → Option RunArgs
+def foldD (look : Nat → Option Sim) (lookC : Nat → Option (Option Nat)) :
+    RunArgs → List Deriv → Option RunArgs
   | a, [] => some a
   | a, d :: ds =>
-    match applyD look a d with
+    match applyD look lookC a d with
     | none => none
-    | some a' => foldD look a' ds
+    | some a' => foldD look lookC a' ds
 
 end GuppyVerif.EmuConfig.Spec
